@@ -186,7 +186,17 @@ def run(case):
                     assert list(t) == list(t2) and t.uri == t2.uri
                     obs.append([[tb.us(s) for s in t], t.uri])
                 elif kind == "chart":
-                    obs.append([[nm(l), tb.u(d)] for l, d in a.chart()])
+                    ch = a.chart()
+                    obs.append([[nm(l), tb.u(d)] for l, d in ch])
+                    # percent=True: the same labels in the same order, each share = duration / sum of the label
+                    # durations (overlapping labels each count in full), shares summing to 1
+                    tot = sum(d for _l, d in ch)
+                    if tot > 0:
+                        pc = a.chart(percent=True)
+                        assert [nm(l) for l, _p in pc] == [nm(l) for l, _d in ch], "chart(percent=True) lists other labels"
+                        assert all(abs(p_ - d_ / tot) <= 1e-9 for (_l, p_), (_l2, d_) in zip(pc, ch)), \
+                            "chart(percent=True) is not duration / total of the label durations: %r vs %r" % (pc, ch)
+                        assert abs(sum(p_ for _l, p_ in pc) - 1.0) <= 1e-9, "chart(percent=True) does not sum to 1"
                 elif kind == "get_tracks":
                     obs.append(sorted((nm(x) for x in a.get_tracks(tb.S(o[3]))), key=name_key))
                 elif kind == "get_labels":
